@@ -107,13 +107,62 @@ Rates(a, t, env, amt) ==
                    IN << <<1, 2, Lookup(env, "KA")>>, <<2, 0, m.k>>, <<2, 3, m.kcp>>, <<3, 2, m.kpc>>,
                          <<2, 4, m.kcq>>, <<4, 2, m.kqc>> >>
 
-NumStr(n) == CASE n = 1 -> "1" [] n = 2 -> "2" [] n = 3 -> "3" [] n = 4 -> "4" [] OTHER -> "0"
+DigitStr == <<"1", "2", "3", "4", "5", "6", "7", "8", "9", "10", "11", "12", "13", "14", "15", "16", "17", "18", "19", "20">>
+NumStr(n) == IF n \in 1..20 THEN DigitStr[n] ELSE "0"
+
+\* ---- basic PK parameters a TRANS routine requires $PK to assign (NM-TRAN rejects a control stream without them)
+RequiredParams(a, t) ==
+    LET ka == IF HasDepot(a) THEN {"KA"} ELSE {} IN
+    CASE a \in {1, 2} -> (IF t = 2 THEN {"CL", "V"} ELSE {"K"}) \cup ka
+      [] a = 3  -> (CASE t = 1 -> {"K", "K12", "K21"} [] t = 3 -> {"CL", "V", "Q", "VSS"} [] t = 4 -> {"CL", "V1", "Q", "V2"}
+                      [] t = 5 -> {"AOB", "ALPHA", "BETA"} [] t = 6 -> {"ALPHA", "BETA", "K21"} [] OTHER -> {})
+      [] a = 4  -> (CASE t = 1 -> {"K", "K23", "K32"} [] t = 3 -> {"CL", "V", "Q", "VSS"} [] t = 4 -> {"CL", "V2", "Q", "V3"}
+                      [] t = 5 -> {"AOB", "ALPHA", "BETA"} [] t = 6 -> {"ALPHA", "BETA", "K32"} [] OTHER -> {}) \cup ka
+      [] a = 10 -> {"VM", "KM"}
+      [] a = 11 -> (CASE t = 1 -> {"K", "K12", "K21", "K13", "K31"} [] t = 4 -> {"CL", "V1", "Q2", "V2", "Q3", "V3"}
+                      [] t = 6 -> {"ALPHA", "BETA", "GAMMA", "K21", "K31"} [] OTHER -> {})
+      [] a = 12 -> (CASE t = 1 -> {"K", "K23", "K32", "K24", "K42"} [] t = 4 -> {"CL", "V2", "Q3", "V3", "Q4", "V4"}
+                      [] t = 6 -> {"ALPHA", "BETA", "GAMMA", "K32", "K42"} [] OTHER -> {}) \cup ka
+      [] OTHER  -> {}
+
+\* ---- general models: $MODEL declares the compartments, comps = << [name, defdose, defobs, nodose], ... >>
+\* default observation compartment: DEFOBSERVATION, else the compartment named CENTRAL, else the first;
+\* default dose compartment: DEFDOSE, else the compartment named DEPOT, else the first that is not NODOSE
+FirstWhere(comps, P(_)) == IF \E i \in 1..Len(comps) : P(comps[i])
+                           THEN CHOOSE i \in 1..Len(comps) : P(comps[i]) /\ \A j \in 1..(i - 1) : ~P(comps[j])
+                           ELSE 0
+ModelDefObs(comps) ==
+    LET a == FirstWhere(comps, LAMBDA c : c.defobs)
+        b == FirstWhere(comps, LAMBDA c : c.name = "CENTRAL")
+    IN IF a # 0 THEN a ELSE IF b # 0 THEN b ELSE 1
+ModelDefDose(comps) ==
+    LET a == FirstWhere(comps, LAMBDA c : c.defdose)
+        b == FirstWhere(comps, LAMBDA c : c.name = "DEPOT")
+        c == FirstWhere(comps, LAMBDA x : ~x.nodose)
+    IN IF a # 0 THEN a ELSE IF b # 0 THEN b ELSE IF c # 0 THEN c ELSE 1
+
+\* ADVAN5 / ADVAN7 (general linear): the rate constant from compartment i to j is the $PK variable  Kij  or  KiTj ;
+\* to the output compartment:  Ki0, KiT0  (or with the output's number n+1).  (With fewer than ten compartments the
+\* three-digit ambiguity rule of NM-TRAN never applies.)
+KNames(i, j, n) ==
+    IF j = 0 THEN {"K" \o NumStr(i) \o "0", "K" \o NumStr(i) \o "T0",
+                   "K" \o NumStr(i) \o NumStr(n + 1), "K" \o NumStr(i) \o "T" \o NumStr(n + 1)}
+    ELSE {"K" \o NumStr(i) \o NumStr(j), "K" \o NumStr(i) \o "T" \o NumStr(j)}
+GeneralRates(n, env, assigned) ==
+    LET pairs == [p \in 1..(n * (n + 1)) |-> <<((p - 1) \div (n + 1)) + 1, (p - 1) % (n + 1)>>]   \* <<i, j>>, j = 0..n
+        has(p) == pairs[p][1] # pairs[p][2] /\ KNames(pairs[p][1], pairs[p][2], n) \cap assigned # {}
+        val(p) == Lookup(env, CHOOSE nm \in KNames(pairs[p][1], pairs[p][2], n) \cap assigned : TRUE)
+        sel == SelectSeq([p \in 1..(n * (n + 1)) |-> p], has)
+    IN [q \in 1..Len(sel) |-> <<pairs[sel[q]][1], pairs[sel[q]][2], val(sel[q])>>]
+\* a rate constant given under two of its names is an NM-TRAN error
+GeneralAmbiguous(n, assigned) ==
+    \E i \in 1..n, j \in 0..n : i # j /\ \E x, y \in KNames(i, j, n) \cap assigned : x # y
 
 \* scale of compartment n: Sn, else SC for the central compartment, else none (= 1).
 \* `assigned` = the names $PK assigns (anywhere, on any path: NM-TRAN looks at the text)
 Scale(a, n, env, assigned) ==
     IF ("S" \o NumStr(n)) \in assigned THEN Lookup(env, "S" \o NumStr(n))
-    ELSE IF n = Central(a) /\ "SC" \in assigned THEN Lookup(env, "SC")
+    ELSE IF a \in Advans /\ n = Central(a) /\ "SC" \in assigned THEN Lookup(env, "SC")
     ELSE One
 \* F for an observation record whose CMT data item is `cmt` (0: default observation compartment)
 ObsCmt(a, cmt) == IF cmt = 0 THEN DefObs(a) ELSE cmt
